@@ -17,14 +17,14 @@ import (
 )
 
 var mitmVariants = []string{
-	"own-key",                 // control: M authenticates as itself -> completes with RemotePubKey = M
-	"forward-auth",            // victim's peer's genuine auth message, re-encrypted (signed over the OTHER session's challenge)
-	"peer-key-own-sig",        // peer's key, M's signature over the right challenge
-	"peer-key-zero-sig",       // peer's key, all-zero signature
-	"peer-key-flipped-sig",    // peer's genuine signature with one bit flipped
-	"replayed-other-session",  // peer's genuine auth message recorded in an earlier honest session with M
-	"zero-eph-forward-auth",   // low-order ephemeral key on both sides (secret known without any private key), then forward-auth
-	"peer-key-nil-sig-type",   // peer's key with an absent signature (nil interface)
+	"own-key",                // control: M authenticates as itself -> completes with RemotePubKey = M
+	"forward-auth",           // victim's peer's genuine auth message, re-encrypted (signed over the OTHER session's challenge)
+	"peer-key-own-sig",       // peer's key, M's signature over the right challenge
+	"peer-key-zero-sig",      // peer's key, all-zero signature
+	"peer-key-flipped-sig",   // peer's genuine signature with one bit flipped
+	"replayed-other-session", // peer's genuine auth message recorded in an earlier honest session with M
+	"zero-eph-forward-auth",  // low-order ephemeral key on both sides (secret known without any private key), then forward-auth
+	"peer-key-nil-sig-type",  // peer's key with an absent signature (nil interface)
 }
 
 // recordOldAuth: an honest session between `victimPeer` (real code) and M as
